@@ -1223,7 +1223,8 @@ func TestVerif_C27_Crash(t *testing.T) {
 			if stride <= 1 {
 				return true
 			}
-			return off-lo < edge+1 || hi-off <= edge+1 || (off+seed*7+si*3)%stride == 0
+			// every class (unit x zone x torn) always gets its edges and its middle; the stride adds more
+			return off-lo < edge+1 || hi-off <= edge+1 || off == (lo+hi)/2 || (off+seed*7+si*3)%stride == 0
 		}
 		for off := 0; off <= len(img); off++ {
 			k, z, torn, unitEnd := vf27ClassOf(s2, off)
